@@ -3,10 +3,18 @@
 (* Validation of what the real client (core/client IPClient) reported      *)
 (* against a scripted network and the real server handler (harness/c03),   *)
 (* schedules generated from NtpExchange.tla by NtpExchangeGen.             *)
-(* Each "accept" record identifies, from wire fields, the client's         *)
-(* interleaved-mode state and kernel timestamps at the harness, the        *)
-(* exchange (attempt / server handling) every one of the four combined     *)
-(* timestamps belongs to.  Records are independent.                        *)
+(* Each "accept" record identifies the exchange (attempt / server          *)
+(* handling) every one of the four combined timestamps belongs to.  The    *)
+(* four timestamps are those the client handed to its (pass-through)       *)
+(* filter (src = "filter"), or - for a measurement returned by the call of *)
+(* a client without filter - wire fields of the accepted response and of   *)
+(* the request, the returned timestamp and the returned offset             *)
+(* (src = "wire"); client-side timestamps are placed by causal windows     *)
+(* between kernel timestamps of the harness's own network events.  What    *)
+(* the client did with a datagram (got) is decided from the return of the  *)
+(* call, the wire and the state of the client's socket and goroutines -    *)
+(* never from its log (lg, lgx: optional cross-check, strict only).        *)
+(* Records are independent.                                                *)
 (***************************************************************************)
 EXTENDS Integers, Sequences, TLC, Json
 
@@ -32,7 +40,8 @@ TSameExchange ==
          /\ (R.il => R.t0ex < R.ex) /\ (~R.il => R.t0ex = R.ex)
 \* the reported offset IS the NTP offset of those four timestamps
 TComputedFromThem == Acc => R.reco
-\* and lies within half the reported round-trip delay of the true offset (ns)
+\* and lies within half the round-trip delay (t3 - t0) - (t2 - t1) of those four
+\* timestamps of the true offset (ns)
 THalfRTT == Acc => 2 * Abs(R.err) <= R.rtd + 8
 
 \* the client never panics on what a conformant server and this network send
@@ -43,4 +52,10 @@ TNoPanic == (l > 0 /\ R.ev \in {"accept", "recv"}) => R.got # "panic"
 \* the client did with each delivered datagram what NtpExchange.tla predicts
 SOutcome == (l > 0 /\ R.ev \in {"accept", "recv"} /\ R.want # "" /\ R.got # "ignored") =>
               (R.want = R.got \/ (R.want = "panic" /\ R.got = "error"))
+\* the client's interleaved state (hook VerifPrev) classifies the accepted response
+\* as the wire does
+SPrevFlag == Acc => R.pil = R.il
+\* optional: where log records with the names known today were seen, they tell
+\* the same reaction, offset, round-trip delay and mode
+SLog == (l > 0 /\ R.ev \in {"accept", "recv"} /\ R.got # "ignored") => ((R.lg # "" => R.lg = R.got) /\ R.lgx)
 =============================================================================
